@@ -131,7 +131,10 @@ class C18(Prop):
     }
 
     def extract_tables(self, repo):
-        return S.extract_tables(repo)
+        from harness import pystream
+        out = dict(S.extract_tables(repo))
+        out.update(pystream.generate_router(repo))     # the router's decision logic, translated from the source
+        return out
 
     # ----- implementation side
     def run_impl(self, inp):
